@@ -100,7 +100,31 @@ type op struct {
 	// wrong type; "cberr": the callback returns an error after adding every seed; "unenc": the
 	// middle seed cannot be encoded.  (Empty / duplicate ids are simply part of Seeds.)
 	Fail string `json:"fail,omitempty"`
+	// init only: Seeds is bulkSeeds(Bulk) (at-capacity workloads; keeps the description small)
+	Bulk int `json:"bulk,omitempty"`
 }
+
+// bulkSeeds are n seeds b0001.. with both members set.
+func bulkSeeds(n int) []seed {
+	out := make([]seed, n)
+	for i := range out {
+		out[i] = seed{fmt.Sprintf("b%04d", i+1), []string{"x", "y", "z"}[i%3], []string{"u", "v"}[i%2]}
+	}
+	return out
+}
+
+func expandBulk(ops []op) []op {
+	out := append([]op{}, ops...)
+	for i := range out {
+		if out[i].Bulk > 0 {
+			out[i].Seeds = bulkSeeds(out[i].Bulk)
+		}
+	}
+	return out
+}
+
+// smallTable makes BadgerDB's per-transaction limit (ErrTxnTooBig) reachable: about 200 writes.
+const smallTable = 1 << 17
 
 var points = []string{"", "create-before", "create-committed", "update-before", "update-committed",
 	"delete-before", "delete-committed", "init-seed-set", "init-before-marker", "index-before", "index-committed"}
@@ -116,8 +140,11 @@ func pointCode(name string) int {
 
 // ---------------------------------------------------------------- store set-up (both roles)
 
-func openStore(dir, prefix string, nidx int, untyped, noqs bool) (*badger.DB, *badgerstore.Store, *badgerstore.QueryStore, error) {
+func openStore(dir, prefix string, nidx int, untyped, noqs, small bool) (*badger.DB, *badgerstore.Store, *badgerstore.QueryStore, error) {
 	opts := badger.DefaultOptions(dir)
+	if small {
+		opts = opts.WithMaxTableSize(smallTable)
+	}
 	opts.Logger = nil
 	db, err := badger.Open(opts)
 	if err != nil {
@@ -159,6 +186,7 @@ func childMain(args []string) {
 	slowUs := fs.Int("slowus", 0, "")
 	untyped := fs.Bool("untyped", false, "")
 	noqs := fs.Bool("noqs", false, "")
+	small := fs.Bool("small", false, "")
 	fs.Parse(args)
 	b, err := os.ReadFile(*opsFile)
 	if err != nil {
@@ -170,7 +198,8 @@ func childMain(args []string) {
 		fmt.Println("FATAL", err)
 		os.Exit(3)
 	}
-	db, st, qs, err := openStore(*dir, *prefix, *nidx, *untyped, *noqs)
+	ops = expandBulk(ops)
+	db, st, qs, err := openStore(*dir, *prefix, *nidx, *untyped, *noqs, *small)
 	if err != nil {
 		fmt.Println("FATAL", err)
 		os.Exit(3)
@@ -277,7 +306,7 @@ type lifeResult struct {
 
 var self string
 
-func runLife(dbdir, scratch string, n int, prefix string, nidx int, untyped bool, ls lifeSpec) lifeResult {
+func runLife(dbdir, scratch string, n int, prefix string, nidx int, untyped, small bool, ls lifeSpec) lifeResult {
 	var r lifeResult
 	of := fmt.Sprintf("%s/ops%d.json", scratch, n)
 	ob, _ := json.Marshal(ls.Ops)
@@ -288,6 +317,9 @@ func runLife(dbdir, scratch string, n int, prefix string, nidx int, untyped bool
 	}
 	if ls.NoQS {
 		cmd.Args = append(cmd.Args, "-noqs")
+	}
+	if small {
+		cmd.Args = append(cmd.Args, "-small")
 	}
 	cmd.Env = append(os.Environ(), "VERIF_KILL="+ls.Kill)
 	var errb bytes.Buffer
@@ -386,6 +418,7 @@ type observation struct {
 	RebuildErr string              `json:"rebuild_err,omitempty"`
 	QueryErr   string              `json:"query_err,omitempty"`
 	Queries    []queryObs `json:"queries,omitempty"`
+	Limit      int        `json:"limit,omitempty"` // DB.MaxBatchCount()
 }
 
 type queryObs struct {
@@ -407,9 +440,13 @@ func observeMain(args []string) {
 	nidx := fs.Int("nidx", 1, "")
 	rebuild := fs.Bool("rebuild", false, "")
 	untyped := fs.Bool("untyped", false, "")
+	small := fs.Bool("small", false, "")
 	fs.Parse(args)
 	var o observation
-	db, _, qs, err := openStore(*dir, *prefix, *nidx, *untyped, false)
+	db, _, qs, err := openStore(*dir, *prefix, *nidx, *untyped, false, *small)
+	if err == nil {
+		o.Limit = int(db.MaxBatchCount())
+	}
 	if err != nil {
 		o.OpenErr = err.Error()
 	} else {
@@ -441,8 +478,11 @@ func observeMain(args []string) {
 	os.Exit(0)
 }
 
-func observe(dir, prefix string, nidx int, untyped, rebuild bool) (o observation) {
+func observe(dir, prefix string, nidx int, untyped, small, rebuild bool) (o observation) {
 	args := []string{"observe", "-dir", dir, "-prefix", prefix, "-nidx", strconv.Itoa(nidx)}
+	if small {
+		args = append(args, "-small")
+	}
 	if untyped {
 		args = append(args, "-untyped")
 	}
@@ -519,6 +559,7 @@ func obsTerm(es []entry) string {
 }
 
 func opsTerm(ops []op, nset []int) string {
+	ops = expandBulk(ops)
 	xs := make([]string, len(ops))
 	for i, o := range ops {
 		switch o.K {
@@ -571,6 +612,7 @@ type jobDesc struct {
 	Prefix  string     `json:"prefix"`
 	NIdx    int        `json:"nidx"`
 	Untyped bool       `json:"untyped,omitempty"` // default map[string]interface{} store with heterogeneous records
+	Small   bool       `json:"small_table,omitempty"` // BadgerDB opened with MaxTableSize = smallTable: transaction limit ~200 writes
 	Lives  []lifeSpec `json:"lives"`
 }
 
@@ -597,7 +639,7 @@ func runJob(d jobDesc) (jo jobOut) {
 	}
 	var runs []string
 	for n, ls := range d.Lives {
-		r := runLife(dbdir, scratch, n, d.Prefix, d.NIdx, d.Untyped, ls)
+		r := runLife(dbdir, scratch, n, d.Prefix, d.NIdx, d.Untyped, d.Small, ls)
 		if n == 0 {
 			jo.first = r
 		}
@@ -613,7 +655,7 @@ func runJob(d jobDesc) (jo jobOut) {
 		} else {
 			jo.stats["life-killed-at-"+append(points, "random-time")[r.pt]]++
 		}
-		ob := observe(dbdir, d.Prefix, d.NIdx, d.Untyped, false)
+		ob := observe(dbdir, d.Prefix, d.NIdx, d.Untyped, d.Small, false)
 		if ob.OpenErr != "" {
 			fail("reopen after lifetime " + strconv.Itoa(n) + " failed: " + ob.OpenErr)
 			return
@@ -640,7 +682,7 @@ func runJob(d jobDesc) (jo jobOut) {
 		}
 		runs = append(runs, runTerm(ls, r, es))
 	}
-	ob := observe(dbdir, d.Prefix, d.NIdx, d.Untyped, true)
+	ob := observe(dbdir, d.Prefix, d.NIdx, d.Untyped, d.Small, true)
 	if ob.OpenErr != "" {
 		fail("final reopen failed: " + ob.OpenErr)
 		return
@@ -690,7 +732,15 @@ func runJob(d jobDesc) (jo jobOut) {
 		jo.stats["rebuild-failed"]++
 		jo.c.Tags = append(jo.c.Tags, "rebuild-error")
 	}
-	jo.c.Term = fmt.Sprintf("CC %s %d %s %s %s %s", B(prefixOf(d.Prefix)), d.NIdx, List(runs), Bool(ob.RebuildErr == ""), obsTerm(es), List(qts))
+	lim := 0
+	if d.Small {
+		lim = ob.Limit - 1 // a transaction with this many writes fails
+		jo.stats["cases-at-capacity(small MaxTableSize)"]++
+		if ob.RebuildErr != "" {
+			jo.stats["at-capacity-RebuildIndexes-returned-an-error"]++
+		}
+	}
+	jo.c.Term = fmt.Sprintf("CC %s %d %d %s %s %s %s", B(prefixOf(d.Prefix)), d.NIdx, lim, List(runs), Bool(ob.RebuildErr == ""), obsTerm(es), List(qts))
 	return
 }
 
@@ -928,6 +978,57 @@ func genWorkload(r *Rng, w int, thorough bool) workload {
 	return wl
 }
 
+// capacityJobs are the at-capacity workloads: databases opened with a small MaxTableSize, so that a
+// transaction of about 200 writes fails with ErrTxnTooBig.  Init with seed sets below / above / far
+// above the limit (killed inside, beyond the limit, or not at all), stores with more values than the
+// limit, then RebuildIndexes.
+func capacityJobs(thorough bool) []jobDesc {
+	dir, err := os.MkdirTemp("", "c12-probe-")
+	if err != nil {
+		panic(err)
+	}
+	defer os.RemoveAll(dir)
+	pr := observe(dir, "", 1, false, true, false)
+	if pr.OpenErr != "" || pr.Limit < 50 {
+		panic("cannot probe the transaction limit: " + pr.OpenErr)
+	}
+	lim := pr.Limit - 1
+	small3 := []seed{{"s1", "x", "u"}, {"s10", "y", ""}, {"s100", "z", "v"}}
+	bulk := func(n int) op { return op{K: "init", Bulk: n} }
+	var creates []op
+	for i := 1; i <= 100; i++ {
+		creates = append(creates, op{K: "create", ID: fmt.Sprintf("c%03d", i), A: []string{"x", "y", ""}[i%3], B: []string{"u", ""}[i%2]})
+	}
+	kill := func(n int) string { return fmt.Sprintf("init-seed-set:%d", n) }
+	tail := []op{{K: "init", Seeds: small3}, {K: "create", ID: "n1", A: "x"}, {K: "delete", ID: "s10"}, {K: "init", Seeds: small3}}
+	js := []jobDesc{
+		// below the limit: one atomic Init, RebuildIndexes fits (1 index) or not (2 indexes)
+		{"", 1, false, true, []lifeSpec{{Ops: []op{bulk(lim - 50)}, NoQS: true}}},
+		{"pfx", 2, false, true, []lifeSpec{{Ops: []op{bulk(lim - 50)}, NoQS: true, Kill: kill(lim - 60)}, {Ops: []op{bulk(lim - 50)}, NoQS: true}}},
+		// more values than the limit: RebuildIndexes cannot write its entries in one transaction
+		{"pfx", 1, true, true, []lifeSpec{{Ops: append([]op{bulk(lim - 50)}, creates...), NoQS: true}}},
+		// above the limit: Init must fail with nothing seeded; kill points inside and beyond the limit
+		{"", 2, false, true, []lifeSpec{{Ops: append([]op{bulk(lim + 50)}, tail...), NoQS: true, Kill: kill(lim + 20)}, {Ops: tail, NoQS: true}}},
+		{"pfx", 2, false, true, []lifeSpec{{Ops: []op{bulk(2 * lim)}, NoQS: true, Kill: kill(lim - 10)}, {Ops: append([]op{bulk(2 * lim)}, tail...), NoQS: true}}},
+		{"pfx", 1, true, true, []lifeSpec{{Ops: append([]op{bulk(2 * lim)}, tail...), NoQS: true, Kill: kill(lim + lim/2)}}},
+		{"", 1, true, true, []lifeSpec{{Ops: append([]op{bulk(lim + 50)}, tail...), NoQS: true}}},
+	}
+	if thorough {
+		// (not lim-1: there the MARKER is the write that hits the limit - Init has then already called
+		// OnChange for every seed and passed init-before-marker, which the InitErr outcome does not show)
+		for _, n := range []int{lim - 2, lim, lim + 1, 3 * lim} {
+			for _, k := range []int{0, lim - 1, lim, lim + 2, 2*lim + 5} {
+				ls := lifeSpec{Ops: append([]op{bulk(n)}, tail...), NoQS: true}
+				if k > 0 {
+					ls.Kill = kill(k)
+				}
+				js = append(js, jobDesc{[]string{"", "pfx"}[(n+k)%2], 1 + (n+k)%2, k%2 == 0, true, []lifeSpec{ls, {Ops: tail, NoQS: true}}})
+			}
+		}
+	}
+	return js
+}
+
 // ---------------------------------------------------------------- main
 
 func runAll(descs []jobDesc) []jobOut {
@@ -988,7 +1089,7 @@ func main() {
 		for w := 0; w < nw; w++ {
 			wl := genWorkload(r, w, thorough)
 			wls = append(wls, wl)
-			dry = append(dry, jobDesc{wl.prefix, wl.nidx, wl.untyped, []lifeSpec{{Ops: wl.ops1}, {Ops: wl.ops2}}})
+			dry = append(dry, jobDesc{wl.prefix, wl.nidx, wl.untyped, false, []lifeSpec{{Ops: wl.ops1}, {Ops: wl.ops2}}})
 		}
 		// learn how often every crash point is hit by the first lifetime
 		douts := runAll(dry)
@@ -1006,44 +1107,57 @@ func main() {
 					if r.Chance(45) {
 						l2.Kill = r.Pick(kill2)
 					}
-					descs = append(descs, jobDesc{wl.prefix, wl.nidx, wl.untyped,
+					descs = append(descs, jobDesc{wl.prefix, wl.nidx, wl.untyped, false,
 						[]lifeSpec{{Ops: wl.ops1, Kill: fmt.Sprintf("%s:%d", points[pi], n)}, l2}})
 					dist["kill-pairs-enumerated"]++
 				}
 			}
 			// a QueryStore without any index: RebuildIndexes has nothing to do
 			if w < 2 || thorough && w%7 == 0 {
-				descs = append(descs, jobDesc{wl.prefix, 0, wl.untyped, []lifeSpec{{Ops: wl.ops1, Kill: "update-committed:1"}, {Ops: wl.ops2}}})
+				descs = append(descs, jobDesc{wl.prefix, 0, wl.untyped, false, []lifeSpec{{Ops: wl.ops1, Kill: "update-committed:1"}, {Ops: wl.ops2}}})
 			}
 			// a lifetime of failing Inits only (the database must stay empty), then the normal one
 			if len(wl.fails) > 0 {
-				descs = append(descs, jobDesc{wl.prefix, wl.nidx, wl.untyped, []lifeSpec{{Ops: wl.fails}, {Ops: wl.ops1}}},
-					jobDesc{wl.prefix, wl.nidx, wl.untyped, []lifeSpec{{Ops: wl.fails, Kill: "init-seed-set:1"}, {Ops: wl.ops1, Kill: "init-seed-set:2"}, {Ops: wl.ops2}}})
+				descs = append(descs, jobDesc{wl.prefix, wl.nidx, wl.untyped, false, []lifeSpec{{Ops: wl.fails}, {Ops: wl.ops1}}},
+					jobDesc{wl.prefix, wl.nidx, wl.untyped, false, []lifeSpec{{Ops: wl.fails, Kill: "init-seed-set:1"}, {Ops: wl.ops1, Kill: "init-seed-set:2"}, {Ops: wl.ops2}}})
 				dist["workloads-with-failing-Inits-before-the-good-one"]++
 			}
 			// killed inside Init again and again, then a clean lifetime
-			descs = append(descs, jobDesc{wl.prefix, wl.nidx, wl.untyped, []lifeSpec{
+			descs = append(descs, jobDesc{wl.prefix, wl.nidx, wl.untyped, false, []lifeSpec{
 				{Ops: wl.ops1, Kill: "init-seed-set:2"}, {Ops: wl.ops1, Kill: "init-before-marker:1"},
 				{Ops: wl.ops1, Kill: "index-before:2"}, {Ops: wl.ops2}}})
 			// values written without a QueryStore attached (no index entries at all), killed or
 			// not, then a lifetime with the QueryStore, then RebuildIndexes
-			descs = append(descs, jobDesc{wl.prefix, wl.nidx, wl.untyped, []lifeSpec{{Ops: wl.ops1, NoQS: true}, {Ops: wl.ops2}}},
-				jobDesc{wl.prefix, wl.nidx, wl.untyped, []lifeSpec{{Ops: wl.ops1, NoQS: true, Kill: "update-committed:2"}}},
-				jobDesc{wl.prefix, wl.nidx, wl.untyped, []lifeSpec{{Ops: wl.ops1, NoQS: true, Kill: "delete-before:1"}, {Ops: wl.ops2, NoQS: true}}})
+			descs = append(descs, jobDesc{wl.prefix, wl.nidx, wl.untyped, false, []lifeSpec{{Ops: wl.ops1, NoQS: true}, {Ops: wl.ops2}}},
+				jobDesc{wl.prefix, wl.nidx, wl.untyped, false, []lifeSpec{{Ops: wl.ops1, NoQS: true, Kill: "update-committed:2"}}},
+				jobDesc{wl.prefix, wl.nidx, wl.untyped, false, []lifeSpec{{Ops: wl.ops1, NoQS: true, Kill: "delete-before:1"}, {Ops: wl.ops2, NoQS: true}}})
 			// a slow application listener lets the index goroutine overtake the Init transaction
 			for _, k := range []string{"init-before-marker:1", "index-committed:2", "index-before:3"} {
-				descs = append(descs, jobDesc{wl.prefix, wl.nidx, wl.untyped, []lifeSpec{
+				descs = append(descs, jobDesc{wl.prefix, wl.nidx, wl.untyped, false, []lifeSpec{
 					{Ops: wl.ops1, Kill: k, SlowUs: 3000}, {Ops: wl.ops2, SlowUs: 500}}})
 			}
 			if thorough {
 				us := int(douts[w].first.dur / time.Microsecond)
 				for k := 0; k < 8; k++ {
-					descs = append(descs, jobDesc{wl.prefix, wl.nidx, wl.untyped,
+					descs = append(descs, jobDesc{wl.prefix, wl.nidx, wl.untyped, false,
 						[]lifeSpec{{Ops: wl.ops1, DelayUs: 1 + r.Intn(us+1)}, {Ops: wl.ops2}}})
 					dist["random-time-kills-requested"]++
 				}
 			}
 		}
+	}
+	if o.Replay == "" {
+		// spread them over the shards (their Coq evaluation takes a second or two each)
+		cj := capacityJobs(thorough)
+		var mixed []jobDesc
+		step := len(descs)/len(cj) + 1
+		for i, d := range descs {
+			if i%step == 0 && i/step < len(cj) {
+				mixed = append(mixed, cj[i/step])
+			}
+			mixed = append(mixed, d)
+		}
+		descs = mixed
 	}
 	outs := runAll(descs)
 	var cases []Case
